@@ -60,6 +60,9 @@ pub fn build_case(family: &str, seed: u64, index: usize, mode: &str) -> Case {
     let mut variants = vec![];
     match mode {
         "equiv" => {
+            // fully parenthesised: the reading of the printed text must not depend on precedence
+            // (that is C16's subject)
+            let base_paren = Paren::Full;
             variants.push(Variant {
                 spec: spec.clone(),
                 opts: mk_opts("L", base_paren, false, pseed),
